@@ -32,10 +32,17 @@ def _history(seed, confkw):
                     os.utime(a.path(onto, f), ns=(stt.st_mtime_ns, stt.st_mtime_ns))
                     rec.env("cp -p %d/%s to disk %d" % (e, f, onto)); steps.append("cp -p %d/%s to disk %d" % (e, f, onto))
 
-        def expect_refused(*flags):
+        def expect_refused(*flags, own=None):
             r, o = rec.sync(*flags)
             rec.lines[-1]["args"]["expect_refused"] = True
             steps.append("sync %s -> %s (must be refused)" % (list(flags), o["exit"]))
+            # the override of ANOTHER interlock does not lift this one
+            # (when the plain sync went on - finding F12 - the trigger is gone)
+            if own is not None and r.rc != 0:
+                for other in [x for x in ("-E", "-Z", "-F") if x != own and rng.random() < 0.7]:
+                    r, o = rec.sync(other)
+                    rec.lines[-1]["args"]["expect_refused"] = True
+                    steps.append("sync [%s] -> %s (must be refused: it overrides another interlock)" % (other, o["exit"]))
 
         def proceed(*flags):
             a.clock += 10
@@ -51,12 +58,12 @@ def _history(seed, confkw):
                 for f in files:
                     a.remove(d, f)
                 rec.env("delete all files of disk %d" % d); steps.append("delete all files of disk %d" % d)
-                pending(onto=d); expect_refused(); proceed("-E")
+                pending(onto=d); expect_refused(own="-E"); proceed("-E")
             elif trig == "all-rewritten" and files:
                 for f in files:
                     a.set_mtime(d, f, g.stamp())
                 rec.env("touch all files of disk %d" % d); steps.append("touch all files of disk %d" % d)
-                pending(); expect_refused(); proceed("-E")
+                pending(); expect_refused(own="-E"); proceed("-E")
             elif trig == "zero-size":
                 cand = [f for f in files if os.path.getsize(a.path(d, f)) > 0 and f in rec.lines[-1]["state"]["cf"][str(d)]]
                 if not cand or len(files) < 2:
@@ -64,7 +71,7 @@ def _history(seed, confkw):
                 f = rng.choice(cand)
                 a.write_file(d, f, [], mtime=g.stamp())
                 rec.env("truncate %d/%s to zero size" % (d, f)); steps.append("truncate %d/%s to zero" % (d, f))
-                pending(); expect_refused(); proceed("-Z")
+                pending(); expect_refused(own="-Z"); proceed("-Z")
             elif trig in ("parity-small", "parity-lost"):
                 l = rng.randrange(confkw["np"])
                 p = a.pfile(l)
@@ -75,7 +82,7 @@ def _history(seed, confkw):
                 else:
                     os.truncate(p, (os.path.getsize(p) // arr.BS - 1) * arr.BS)
                 rec.env("%s level %d" % (trig, l), damage=True); steps.append("%s level %d" % (trig, l))
-                pending(); expect_refused(); proceed("-F")
+                pending(); expect_refused(own="-F"); proceed("-F")
                 r, o = rec.check(); steps.append("check -> %s" % o["exit"])
             elif trig in ("blocksize", "hashsize", "disk-dropped"):
                 if trig == "disk-dropped" and not rec.lines[-1]["state"]["cf"][str(d)]:
@@ -101,7 +108,20 @@ def _history(seed, confkw):
                 pending()
                 k = rng.randint(2, 12)      # call 1 is the open of the lock file itself: the lock is taken right after it
                 first = rng.choice([("sync", "-F"), ("scrub", "-p", "full"), ("fix",), ("check",)])
-                env = dict(os.environ, LD_PRELOAD=a.shim, VSHIM_ROOT=a.root, VSHIM_RULES="any,*,%d,stop" % k,
+                rule = "any,*,%d,stop" % k
+                if confkw.get("copies", 2) >= 2 and rng.random() < 0.5:
+                    # the first content copy of the configuration is lost before the first command starts; that command (a sync
+                    # with something to do) writes it again before it goes through the stripes, and is stopped at its first
+                    # parity write: the commands started then must find the array locked all the same
+                    dd = g.op_add()
+                    if dd:
+                        rec.env(dd); steps.append(dd)
+                    first = ("sync", "-F")
+                    os.remove(a.cfile(0))
+                    steps.append("the first content copy is lost")
+                    rule = "pwrite,/%s,1,stop" % os.path.relpath(a.pfile(0), a.root)
+                    k = "first parity write"
+                env = dict(os.environ, LD_PRELOAD=a.shim, VSHIM_ROOT=a.root, VSHIM_RULES=rule,
                            VSHIM_TIME=str(a.clock), VSHIM_URANDOM=a.urandom, VSHIM_STATFS="1")
                 p1 = subprocess.Popen([a.bin, "-c", a.conf_path()] + a.BASE_FLAGS + ["--test-force-murmur3"] + list(first), env=env,
                                       stdout=subprocess.PIPE, stderr=subprocess.PIPE)
@@ -120,7 +140,7 @@ def _history(seed, confkw):
                 if stopped:
                     # the refusals are compared with the state at the moment the first command was stopped
                     rec.lines.append({"e": "Reset", "dmg": True, "state": rec.state()})
-                    steps.append("%s stopped at its state-changing call %d" % (" ".join(first), k))
+                    steps.append("%s stopped at its state-changing call %s" % (" ".join(first), k))
                     for cmd in rng.sample([("sync",), ("check",), ("fix",), ("scrub",), ("status",), ("diff",), ("list",), ("dup",)], 4):
                         rec.refused(cmd[0], "lock:%s-while-%s" % (cmd[0], first[0]), *cmd[1:])
                         steps.append("%s while %s is running (must be refused)" % (cmd[0], first[0]))
